@@ -73,6 +73,47 @@ pub fn judge_op(op: &Op, args: &[Arg]) -> Result<(bool, &'static str), String> {
     }
 }
 
+/// Interval texts at the range limits with the fields written in several orders (limit years /
+/// days x every month / boundary clock fields incl. a carrying fraction x sign), plus the 12-hour
+/// respelling of the last second of the day with a carrying fraction. Shared with C03 (no panic).
+pub fn limit_texts() -> Vec<(Kind, String, String)> {
+    let mut texts: Vec<(Kind, String, String)> = vec![];
+    for y in [177_999_999i64, 178_000_000, 178_000_001] {
+        for m in 0..=12 {
+            for sign in ["", "-", "+"] {
+                texts.push((Kind::YM, "YYYY-MM".into(), format!("{sign}{y}-{m:02}")));
+                texts.push((Kind::YM, "MM-YYYY".into(), format!("{m:02}-{sign}{y}")));
+                texts.push((Kind::YM, "MM YYYY".into(), format!("{sign}{m:02} {y}")));
+                texts.push((Kind::YM, "MM/YYYY".into(), format!("{m}/{sign}{y}")));
+            }
+        }
+    }
+    for d in [99_999_999i64, 100_000_000, 100_000_001] {
+        for (h, mi, se, f) in [(0, 0, 0, "000000"), (0, 0, 0, "000001"), (0, 0, 1, "000000"), (0, 1, 0, "000000"), (1, 0, 0, "000000"), (23, 59, 59, "999999"), (0, 0, 0, "9999995")] {
+            for sign in ["", "-", "+"] {
+                texts.push((Kind::DT, "DD HH24:MI:SS.FF".into(), format!("{sign}{d} {h:02}:{mi:02}:{se:02}.{f}")));
+                texts.push((Kind::DT, "HH24:MI:SS.FF DD".into(), format!("{h:02}:{mi:02}:{se:02}.{f} {sign}{d}")));
+                texts.push((Kind::DT, "FF SS MI HH24 DD".into(), format!("{f} {se} {mi} {h} {sign}{d}")));
+                texts.push((Kind::DT, "SS.FF DD HH24:MI".into(), format!("{sign}{se:02}.{f} {d} {h:02}:{mi:02}")));
+            }
+        }
+    }
+    for f in ["9999995", "99999995", "999999995", "9999994", "999999"] {
+        for (pic, text) in [
+            ("HH:MI:SS.FF PM", format!("11:59:59.{f} PM")),
+            ("PM HH12:MI:SS.FF", format!("pm 11:59:59.{f}")),
+            ("HH:MI:SS.FF A.M.", format!("11:59:59.{f} a.m.")),
+            ("HH24:MI:SS.FF", format!("23:59:59.{f}")),
+        ] {
+            texts.push((Kind::Time, pic.into(), text.clone()));
+            texts.push((Kind::Ts, format!("YYYY-MM-DD {pic}"), format!("9999-12-31 {text}")));
+            texts.push((Kind::Ts, format!("{pic} DD.MM.YYYY"), format!("{text} 31.12.9999")));
+            texts.push((Kind::Ts, format!("YYYY-MM-DD {pic}"), format!("1969-12-31 {text}")));
+        }
+    }
+    texts
+}
+
 /// A parse must yield Err or an in-range value, whatever the text.
 pub fn check_parse_range(kind: Kind, pic: &str, text: &str) -> Result<bool, String> {
     let r = ad::parse_type(kind, text, pic).map_err(|p| format!("{}::parse({text:?}, {pic:?}): {p}", kind.name()))?;
@@ -429,27 +470,7 @@ pub fn run(ctx: &Ctx) -> (Stats, Report) {
     // depend on which field the parser meets first): limit years / days x every month / boundary
     // clock fields x sign
     {
-        let mut texts: Vec<(Kind, String, String)> = vec![];
-        for y in [177_999_999i64, 178_000_000, 178_000_001] {
-            for m in 0..=12 {
-                for sign in ["", "-", "+"] {
-                    texts.push((Kind::YM, "YYYY-MM".into(), format!("{sign}{y}-{m:02}")));
-                    texts.push((Kind::YM, "MM-YYYY".into(), format!("{m:02}-{sign}{y}")));
-                    texts.push((Kind::YM, "MM YYYY".into(), format!("{sign}{m:02} {y}")));
-                    texts.push((Kind::YM, "MM/YYYY".into(), format!("{m}/{sign}{y}")));
-                }
-            }
-        }
-        for d in [99_999_999i64, 100_000_000, 100_000_001] {
-            for (h, mi, se, f) in [(0, 0, 0, "000000"), (0, 0, 0, "000001"), (0, 0, 1, "000000"), (0, 1, 0, "000000"), (1, 0, 0, "000000"), (23, 59, 59, "999999"), (0, 0, 0, "9999995")] {
-                for sign in ["", "-", "+"] {
-                    texts.push((Kind::DT, "DD HH24:MI:SS.FF".into(), format!("{sign}{d} {h:02}:{mi:02}:{se:02}.{f}")));
-                    texts.push((Kind::DT, "HH24:MI:SS.FF DD".into(), format!("{h:02}:{mi:02}:{se:02}.{f} {sign}{d}")));
-                    texts.push((Kind::DT, "FF SS MI HH24 DD".into(), format!("{f} {se} {mi} {h} {sign}{d}")));
-                    texts.push((Kind::DT, "SS.FF DD HH24:MI".into(), format!("{sign}{se:02}.{f} {d} {h:02}:{mi:02}")));
-                }
-            }
-        }
+        let texts = limit_texts();
         for (k, (kind, pic, text)) in texts.iter().enumerate() {
             st.evaluations += 1;
             st.nontrivial_enum += 1;
